@@ -69,13 +69,15 @@ RankSelectionMonotone ==
   [][(IsSelect /\ cur'.op = "select" /\ cur.rt = "int" /\ cur'.rt = "int") => cur.idx <= cur'.idx]_vars
 
 \* ... and on the uniform grid of draws a better index never gets fewer draws than a worse
-\* one (up to the discretisation error of one grid point)
+\* one.  Tolerance 2: an interval of draws of length L holds floor(L*K) or ceil(L*K) grid points
+\* (one point of discretisation), and a grid point that coincides with an interval boundary
+\* (uniform selection with K a multiple of n) may fall to either side in floating point.
 GridCount(i) == Cardinality({j \in DOMAIN T.ev : T.ev[j].d.kind = "grid" /\ T.ev[j].rt = "int"
                                                     /\ T.ev[j].idx = i})
 RankSelectionPrefersBetter ==
   (IsSelect /\ l = Len(T.ev)) =>
      LET c == [i \in 0..(T.n - 1) |-> GridCount(i)]
-     IN \A i, j \in 0..(T.n - 1) : i < j => c[i] + 1 >= c[j]
+     IN \A i, j \in 0..(T.n - 1) : i < j => c[i] + 2 >= c[j]
 
 (* ------------- conformance with the design model (drift, not verdicts) -------------- *)
 RankFollowsModel ==
